@@ -701,12 +701,29 @@ class SymEval:
             elif self._calls_new_helper(st.value):
                 # a bare call to a helper the reference tree does not have: its raises and attribute updates are the caller's
                 self.expr(st.value)
-            # torch's in-place methods (trailing underscore) on a name: x.square_() is x = x.square()
-            f0 = st.value.func
-            if (isinstance(f0, ast.Attribute) and isinstance(f0.value, ast.Name) and f0.attr.endswith("_") and not f0.attr.startswith("_") and len(f0.attr) > 2
-                    and f0.value.id in self.env and not st.value.keywords):
+            # torch's in-place methods (trailing underscore) on a name: x.square_() is x = x.square(); chains x.clamp_min_(e).log_() apply in order
+            chain, cur_ = [], st.value
+            while isinstance(cur_, ast.Call) and isinstance(cur_.func, ast.Attribute) and cur_.func.attr.endswith("_") and not cur_.func.attr.startswith("_") \
+                    and len(cur_.func.attr) > 2 and not cur_.keywords:
+                chain.append(cur_)
+                cur_ = cur_.func.value
+            if chain and isinstance(cur_, ast.Name) and cur_.id in self.env:
                 try:
-                    self.env[f0.value.id] = S.call("." + f0.attr[:-1], self.env[f0.value.id], *[self.expr(a) for a in st.value.args])
+                    val_ = self.env[cur_.id]
+                    for c_ in reversed(chain):
+                        args_ = [self.expr(a) for a in c_.args]
+                        op_ = c_.func.attr[:-1]
+                        if op_ in ("mul", "multiply") and len(args_) == 1:
+                            val_ = S.mul(val_, args_[0])
+                        elif op_ == "add" and len(args_) == 1:
+                            val_ = S.add(val_, args_[0])
+                        elif op_ in ("sub", "subtract") and len(args_) == 1:
+                            val_ = S.sub(val_, args_[0])
+                        elif op_ in ("div", "true_divide", "divide") and len(args_) == 1:
+                            val_ = S.truediv(val_, args_[0])
+                        else:
+                            val_ = S.call("." + op_, val_, *args_)
+                    self.env[cur_.id] = val_
                 except Exception:
                     pass
             # mutating method calls on tracked containers
